@@ -661,11 +661,12 @@ def audit_presentations(A, nprng):
                         ("0-d float32 array", numpy.array(s, dtype="float32")), ("numpy.longdouble", numpy.longdouble(s))]
                 if s == int(s):
                     scal += [("int", int(s)), ("numpy.int64", numpy.int64(s)), ("numpy.int32", numpy.int32(s)), ("0-d int array", numpy.array(int(s)))]
-                    # TODO(round 5, suspected defect, reported to the coordinator): a spacing given as a SMALL NumPy integer scalar is
-                    # squared in that integer type by ft2/ift2/rft2/irft2 (`delta**2`, `(N*delta_f)**2`) and wraps silently:
-                    # ift2(numpy.ones((7,7)), numpy.uint8(4)) is scaled by (28**2) mod 256 = 16 instead of 784, and
-                    # ft2(x, numpy.int32(70000)) by 70000**2 mod 2^32.  Kept out of the generator until it is decided:
-                    # scal.append(("numpy.uint8", numpy.uint8(s)))
+                    # a spacing held as a SMALL NumPy integer scalar: ft2/ift2/rft2/irft2 squared it in that integer type (finding
+                    # spacing-type:numpy.uint8, fixed by 9574e64: ift2(ones((7,7)), numpy.uint8(4)) was scaled by 28² mod 256 = 16)
+                    if 0 < s < 256:
+                        scal.append(("numpy.uint8", numpy.uint8(s)))
+                    if abs(s) < 2 ** 15:
+                        scal.append(("numpy.int16", numpy.int16(s)))
                 for lab, sv in scal:
                     r = dict(rep, spacing_type=lab)
                     o = A.call("spacing-type:%s:%s" % (lab, tag), what + " [spacing as %s]" % lab, r, fn, inp, sv)
